@@ -19,6 +19,7 @@ import Golib.Proof.C03Seq
 import Golib.Proof.C03Fresh
 import Golib.Proof.C03Multi
 import Golib.Gen.FactsC03
+import Golib.Proof.C03Trans
 
 namespace Golib.C03
 
@@ -466,8 +467,9 @@ this theorem then fails to `decide`):
 * the function returned by `All` (setz/iter.go) is the body of `Range` modulo the callback's name
   (`RB.all` is defined as `RB.range`);
 * `Remove` calls `containers.Remove(high)` exactly under `c.Len() == 0` inside `if ok`, after `len--`;
-* `arrayContainer.Add` tests the duplicate before `len(values) < threshold`; `search` is the loop
-  of `searchLoop`;
+* `arrayContainer.Add` tests the duplicate before `len(values) < threshold` (that `search` is the
+  loop of `searchLoop` is no longer a text fact `searchShape`: since wave 8 it is the theorem
+  `c03_trans_search` below, proved about the definition regenerated from the source);
 * the word loops: `for j := 0; j < 64`, value `high<<16 | (i<<6+j)`, `Type() == 1` = array container;
   `num>>16` / `uint16(num)`, `num>>6` / `num&63`; the cached length moves with `Bits.Add/Remove`;
 * the iterators: `arrayContainerIter` starts at `-1` (`Container.iter`), `BitmapIter.Next` resets
@@ -478,12 +480,99 @@ theorem c03_facts :
     Golib.Gen.C03.convertedLen = threshold + 1 ∧ Golib.Gen.C03.iterReset = true ∧
     Golib.Gen.C03.setZeroWords = Golib.Gen.C03.words ∧
     Golib.Gen.C03.allBodyEqRange = true ∧ Golib.Gen.C03.removeGuard = true ∧
-    Golib.Gen.C03.addDupBeforeThreshold = true ∧ Golib.Gen.C03.searchShape = true ∧
+    Golib.Gen.C03.addDupBeforeThreshold = true ∧
     Golib.Gen.C03.rangeInnerBound = 64 ∧ Golib.Gen.C03.rangeShape = true ∧
     Golib.Gen.C03.splitShape = true ∧ Golib.Gen.C03.bitSplitShape = true ∧
     Golib.Gen.C03.cachedLenShape = true ∧
     Golib.Gen.C03.arrIterStart = -1 ∧ Golib.Gen.C03.arrIterShape = true ∧
     Golib.Gen.C03.bitmapIterShape = true ∧ Golib.Gen.C03.iterValueShape = true := by
   decide
+
+/-! ### Regenerated tie (wave 8)
+
+`Golib.Gen.Trans.C03.search` / `arrayContainer_Contains` / `arrayContainer_Remove` are regenerated by `go2lean` from
+`setz/roaring_bitmap.go` of the tree under verification on every run (`Gen/TransC03.lean`); the
+theorems below are re-checked against that text.  Abstraction: `absVals` (a `[]uint16` as the
+model's `Array Nat`, element-wise `toNat`), `x ↦ x.toNat`, a model index `p : Nat` is the Go `int`
+`(p : Int)`; `optRes` maps the model's `none` (Go panic) to `.panic`.  Well-formedness:
+`values.length < 2^63` (a Go slice length is an `int`) — under it `int(uint(low+high) >> 1)` is the
+midpoint.  No sortedness is needed for the tie (it is a hypothesis of the property clause only).
+A pointer-receiver method returns the receiver after the call next to its result (state passing).
+`arrayContainer.Add` is outside the translator's subset (interface result, `unsafe`): it stays tied
+by correspondence, facts and the drift hash. -/
+
+/-- The regenerated `search` IS the hand-written `search` on every slice: same result, and it
+panics exactly where the model does (nowhere: `search_total`), never out of fuel. -/
+theorem c03_trans_search (vals : List (BitVec 16)) (x : BitVec 16) (hlen : vals.length < 2 ^ 63) :
+    Golib.Gen.Trans.C03.search vals x
+      = optRes (fun p : Nat => (p : Int)) (search (absVals vals) x.toNat) :=
+  trans_search_eq vals x hlen
+
+/-- `c03_search_spec` directly on the generated definition: on a strictly ascending slice the code
+returns the lower bound of `x` (and does not panic). -/
+theorem c03_trans_search_lower_bound (vals : List (BitVec 16)) (x : BitVec 16)
+    (hlen : vals.length < 2 ^ 63) (hs : Sorted (absVals vals)) :
+    ∃ p : Nat, Golib.Gen.Trans.C03.search vals x = .ok (p : Int) ∧ LowerBound (absVals vals) x.toNat p := by
+  obtain ⟨p, hp, hlb⟩ := c03_search_spec (absVals vals) x.toNat hs
+  exact ⟨p, by rw [c03_trans_search vals x hlen, hp]; rfl, hlb⟩
+
+/-- The regenerated `(*arrayContainer).Contains` IS `arrContains`. -/
+theorem c03_trans_arrayContainer_Contains (vals : List (BitVec 16)) (x : BitVec 16)
+    (hlen : vals.length < 2 ^ 63) :
+    Golib.Gen.Trans.C03.arrayContainer_Contains { values := vals } x
+      = optRes id (arrContains (absVals vals) x.toNat) :=
+  trans_contains_eq vals x hlen
+
+/-- The property clause directly on the generated definition: on a strictly ascending array
+container, `Contains(x)` is membership of `x`. -/
+theorem c03_trans_contains_mem (vals : List (BitVec 16)) (x : BitVec 16)
+    (hlen : vals.length < 2 ^ 63) (hs : Sorted (absVals vals)) :
+    Golib.Gen.Trans.C03.arrayContainer_Contains { values := vals } x = .ok (decide (x ∈ vals)) := by
+  obtain ⟨p, hp, hlb⟩ := c03_search_spec (absVals vals) x.toNat hs
+  have hmem := mem_absVals vals x
+  have hhit := lowerBound_hit_iff hs hlb
+  rw [c03_trans_arrayContainer_Contains vals x hlen]
+  simp only [arrContains, hp, optRes_some, id]
+  congr 1
+  rw [Bool.eq_iff_iff, hhit, hmem, decide_eq_true_iff]
+
+/-- The regenerated `(*arrayContainer).Remove` IS `arrRemove`: same answer `ok`, and the receiver
+after the call (`ac.values = append(ac.values[:pos], ac.values[pos+1:]...)`, both slice
+expressions in bounds) is, through `absVals`, the array the model returns. -/
+theorem c03_trans_arrayContainer_Remove (vals : List (BitVec 16)) (x : BitVec 16)
+    (hlen : vals.length < 2 ^ 63) :
+    ∃ (ok : Bool) (vals' : List (BitVec 16)),
+      Golib.Gen.Trans.C03.arrayContainer_Remove { values := vals } x = .ok (ok, { values := vals' }) ∧
+      arrRemove (absVals vals) x.toNat = some (absVals vals', ok) :=
+  trans_remove_eq vals x hlen
+
+/-- The property clause directly on the generated definition: on a strictly ascending array
+container `Remove(x)` answers whether `x` was a member, and afterwards the container is strictly
+ascending and holds exactly the other members. -/
+theorem c03_trans_remove_set (vals : List (BitVec 16)) (x : BitVec 16)
+    (hlen : vals.length < 2 ^ 63) (hs : Sorted (absVals vals)) :
+    ∃ vals' : List (BitVec 16),
+      Golib.Gen.Trans.C03.arrayContainer_Remove { values := vals } x
+        = .ok (decide (x ∈ vals), { values := vals' }) ∧
+      Sorted (absVals vals') ∧ ∀ y, y ∈ vals' ↔ (y ≠ x ∧ y ∈ vals) :=
+  trans_remove_set vals x hlen hs
+
+/-- Non-vacuity of the `Remove` tie: removing 5 from `{1, 5, 9}` answers true and leaves `{1, 9}`;
+removing 6 answers false and leaves the container as it was. -/
+example :
+    Golib.Gen.Trans.C03.arrayContainer_Remove { values := [1#16, 5#16, 9#16] } 5#16
+      = .ok (true, { values := [1#16, 9#16] }) ∧
+    Golib.Gen.Trans.C03.arrayContainer_Remove { values := [1#16, 5#16, 9#16] } 6#16
+      = .ok (false, { values := [1#16, 5#16, 9#16] }) := by
+  constructor <;> decide +kernel
+
+/-- Non-vacuity: a sorted `[]uint16{1, 5, 9}`: the lower bound of 6 is 2, of 10 is 3 = len;
+5 is a member, 6 is not. -/
+example : Sorted (absVals [1#16, 5#16, 9#16]) ∧
+    Golib.Gen.Trans.C03.search [1#16, 5#16, 9#16] 6#16 = .ok 2 ∧
+    Golib.Gen.Trans.C03.search [1#16, 5#16, 9#16] 10#16 = .ok 3 ∧
+    Golib.Gen.Trans.C03.arrayContainer_Contains { values := [1#16, 5#16, 9#16] } 5#16 = .ok true ∧
+    Golib.Gen.Trans.C03.arrayContainer_Contains { values := [1#16, 5#16, 9#16] } 6#16 = .ok false := by
+  refine ⟨by unfold Sorted; decide, ?_, ?_, ?_, ?_⟩ <;> decide +kernel
 
 end Golib.C03
